@@ -248,6 +248,10 @@ def check_listing(fs, fid, filepath, label=""):
     return [label + x for x in errs]
 
 
+STANDARD_ATTRS = {"bin-type", "bin-size", "storage-mode", "nchroms", "nbins", "sum", "nnz", "genome-assembly",
+                  "metadata", "creation-date", "generated-by", "format", "format-version", "format-url", "ncells"}
+
+
 def check_unrelated(fs, fid, filepath, label=""):
     """Planted attributes and datasets are byte-equal to what was planted."""
     errs = []
@@ -261,6 +265,13 @@ def check_unrelated(fs, fid, filepath, label=""):
                 except KeyError:
                     errs.append("planted object %s vanished" % p)
                     continue
+                if n.kind == "group" and not n.dirty and n.coll is not INDET:
+                    # nothing but the planted attributes and (on a collection) the standard ones
+                    extra = set(obj.attrs.keys()) - set(n.attrs) - STANDARD_ATTRS
+                    if n.coll is None and n.tag is None:
+                        extra = set(obj.attrs.keys()) - set(n.attrs)
+                    if extra:
+                        errs.append("stale attribute(s) %s on %s" % (sorted(extra), p))
                 for k, v in n.attrs.items():
                     if k not in obj.attrs:
                         errs.append("attribute %s@%s vanished" % (k, p))
